@@ -1033,7 +1033,8 @@ fn gen_cast(rng: &mut Rng) -> (String, String) {
             2 => s1 - rng.range(1, 4),
             3 => (s1 + (p2 as i64 - p1 as i64)).min(p2 as i64), // just infallible
             _ => gen_scale(rng, p2),
-        };
+        }
+        .min(p2 as i64);
         let ood = rng.chance(1, 5);
         let dir = if s2 > s1 { "up" } else if s2 < s1 { "down" } else { "same" };
         let inf = if s2 >= s1 { (p1 as i64) + (s2 - s1) <= p2 as i64 } else { (p1 as i64) - (s1 - s2) < p2 as i64 };
